@@ -66,6 +66,12 @@ func genC14(t *rapid.T) c14Prog {
 	}
 	p.Choices = rapid.SliceOfN(rapid.IntRange(0, 63), 8, 64).Draw(t, "choices")
 	p.Repeat = 3
+	// now and then the logs are replicas of one long history (more than a thousand entries each, different lengths)
+	if rapid.IntRange(0, 99).Draw(t, "large") == 0 {
+		for i := 0; i < n; i++ {
+			p.Setup.Preload = append(p.Setup.Preload, rapid.SampledFrom([]int{1030, 1100, 1100, 1290}).Draw(t, "preload"))
+		}
+	}
 	return p
 }
 
@@ -299,6 +305,9 @@ func runMultiLogImpl(tb ev.TB, p c14Prog, prop string) ev.Result {
 		}
 	}
 	cl := []string{}
+	if len(p.Setup.Preload) > 0 {
+		cl = append(cl, "large-logs")
+	}
 	if srcMutatedDuringJoin {
 		cl = append(cl, "source-mutated-during-merge")
 	}
@@ -320,7 +329,7 @@ func TestC03Multi(t *testing.T) {
 
 func TestC14Coop(t *testing.T) {
 	c := ev.Get("C14")
-	c.Rule = "generated concurrent programs over 2-3 logs built by a generated setup history: 2-4 logical threads each run 1-3 operations from {X.Join(Y), X.Append} with generated X, Y (so merges from a log that is concurrently appended to, merged into, or merging back). Engine E1 (cooperative scheduler): every lock request/release of every log and the points join.locked / join.afterValidate / join.beforeHeads are scheduling points, the interleaving is a generated choice list, deadlock is detected exactly. At every write-unlock of a log its state (read without locks) must have heads ⊆ entries, be causally closed and have heads == unreferenced; for a Join the result must equal (destination at lock time) ∪ S for some state S the source log had between the call and the return (states recorded at every write-unlock). Engine E2 (TestC14Free, -race): the same programs on free goroutines with a 20 s watchdog whose expiry is a violation only if the goroutine dump shows the log locks held. Non-trivial = the source was mutated by another thread while a merge from it was in flight, or two merges in opposite directions overlapped; distinct = distinct program."
+	c.Rule = "generated concurrent programs over 2-3 logs built by a generated setup history (in a few percent of the cases each log additionally starts as a replica of one long history of 1030-1290 entries): 2-4 logical threads each run 1-3 operations from {X.Join(Y), X.Append} with generated X, Y (so merges from a log that is concurrently appended to, merged into, or merging back). Engine E1 (cooperative scheduler): every lock request/release of every log and the points join.locked / join.afterValidate / join.beforeHeads are scheduling points, the interleaving is a generated choice list, deadlock is detected exactly. At every write-unlock of a log its state (read without locks) must have heads ⊆ entries, be causally closed and have heads == unreferenced; for a Join the result must equal (destination at lock time) ∪ S for some state S the source log had between the call and the return (states recorded at every write-unlock). Engine E2 (TestC14Free, -race): the same programs on free goroutines with a 20 s watchdog whose expiry is a violation only if the goroutine dump shows the log locks held. Non-trivial = the source was mutated by another thread while a merge from it was in flight, or two merges in opposite directions overlapped; distinct = distinct program."
 	c.Assumptions = []string{"interleavings are explored at hook granularity", "E2's deadlock verdict needs the goroutine dump to show goroutines parked on the logs' RWMutex"}
 	ev.Check(t, "C14", genC14, runC14Coop)
 }
@@ -404,6 +413,9 @@ func runC14Free(tb ev.TB, p c14Prog) ev.Result {
 		}
 	}
 	cl := []string{"free-running"}
+	if len(p.Setup.Preload) > 0 {
+		cl = append(cl, "large-logs")
+	}
 	if atomic.LoadInt32(&overlap) == 1 {
 		cl = append(cl, "operations-overlapped")
 	}
